@@ -1217,6 +1217,132 @@ func specNetFound(t *bart.Table[NetworkType], ip netip.Addr) bool { return false
 //@   loop 2 invariant i.networks != nil && fresh(i.networks)
 
 // =====================================================================
+// C16 — firewall verdicts follow the rule semantics (rule table dispatch)
+// =====================================================================
+//
+// The rule table is a tree: protocol table -> port -> CA constraint -> rule
+// (groups / host / remote CIDR) -> local CIDR. The spec functions below are
+// the documented semantics of every level except the rule level, which is an
+// uninterpreted predicate here (specRule: "any of all-listed groups, host name
+// or remote CIDR matches, and its local CIDR matches"; its code ranges over a
+// bart iterator function, outside the verified subset):
+//   table : the any-protocol table matches, or the packet's protocol table does
+//           (TCP, UDP; ICMP and ICMPv6 share one);
+//   port  : ICMP ignores ports (only `any` rules); otherwise the rules of the
+//           packet's port match — `fragment` for a non-first fragment, the
+//           local port inbound, the remote port outbound — or the `any` rules;
+//   CA    : rules without CA constraint, or rules for the certificate's issuer
+//           fingerprint, or rules for the name of the CA the pool finds for it;
+//   local : `any`, or the local address lies in the rule's local CIDR set.
+
+//@ func specRule
+//@   opaque
+func specRule(fr *FirewallRule, p firewall.Packet, c *cert.CachedCertificate) bool { return false }
+
+//@ func specCAFound
+//@   opaque
+func specCAFound(pool *cert.CAPool, c cert.Certificate) bool { return false }
+
+//@ func specCAOf
+//@   opaque
+func specCAOf(pool *cert.CAPool, c cert.Certificate) *cert.CachedCertificate { return nil }
+
+//@ func (*FirewallRule).match
+//@   trusted rule-level matching (groups, host, remote CIDR through a bart iterator) is abstracted to specRule; it only reads
+//@   ensures result == specRule(fr, p, c) && implies(fr == nil, !result)
+//@   assigns nothing
+//@ func github.com/slackhq/nebula/cert.(*CAPool).GetCAForCert
+//@   trusted verified in package cert (C01): the CA registered under the certificate's issuer, or an error; reads only
+//@   ensures (result1 == nil) == specCAFound(ncp, c) && result0 == specCAOf(ncp, c) && implies(result1 == nil, result0 != nil && result0.Certificate != nil)
+//@   assigns nothing
+
+//@ func specLocal
+//@   pure
+func specLocal(flc *firewallLocalCIDR, p firewall.Packet) bool {
+	return flc != nil && (flc.Any || liteContains(flc.LocalCIDR, p.LocalAddr))
+}
+
+//@ func specCA
+//@   pure
+func specCA(fc *FirewallCA, p firewall.Packet, c *cert.CachedCertificate, pool *cert.CAPool) bool {
+	if fc == nil {
+		return false
+	}
+	if specRule(fc.Any, p, c) {
+		return true
+	}
+	if has(fc.CAShas, c.Certificate.Issuer()) && specRule(fc.CAShas[c.Certificate.Issuer()], p, c) {
+		return true
+	}
+	return specCAFound(pool, c.Certificate) && specRule(fc.CANames[specCAOf(pool, c.Certificate).Certificate.Name()], p, c)
+}
+
+//@ func specPortOf
+//@   pure
+func specPortOf(p firewall.Packet, incoming bool) int32 {
+	if p.Fragment {
+		return firewall.PortFragment
+	}
+	if incoming {
+		return int32(p.LocalPort)
+	}
+	return int32(p.RemotePort)
+}
+
+//@ func specPort
+//@   pure
+func specPort(fp firewallPort, p firewall.Packet, incoming bool, c *cert.CachedCertificate, pool *cert.CAPool) bool {
+	if fp == nil {
+		return false
+	}
+	if p.Protocol == firewall.ProtoICMP || p.Protocol == firewall.ProtoICMPv6 {
+		return specCA(fp[firewall.PortAny], p, c, pool)
+	}
+	return specCA(fp[specPortOf(p, incoming)], p, c, pool) || specCA(fp[firewall.PortAny], p, c, pool)
+}
+
+//@ func specTable
+//@   pure
+func specTable(ft *FirewallTable, p firewall.Packet, incoming bool, c *cert.CachedCertificate, pool *cert.CAPool) bool {
+	if specPort(ft.AnyProto, p, incoming, c, pool) {
+		return true
+	}
+	switch p.Protocol {
+	case firewall.ProtoTCP:
+		return specPort(ft.TCP, p, incoming, c, pool)
+	case firewall.ProtoUDP:
+		return specPort(ft.UDP, p, incoming, c, pool)
+	case firewall.ProtoICMP, firewall.ProtoICMPv6:
+		return specPort(ft.ICMP, p, incoming, c, pool)
+	}
+	return false
+}
+
+//@ func (*firewallLocalCIDR).match
+//@   props C16
+//@   requires implies(flc != nil && !flc.Any, flc.LocalCIDR != nil)
+//@   ensures result == specLocal(flc, p)
+//@   assigns nothing
+
+//@ func (*FirewallCA).match
+//@   props C16
+//@   requires c != nil && c.Certificate != nil && caPool != nil
+//@   ensures result == specCA(fc, p, c, caPool)
+//@   assigns nothing
+
+//@ func (firewallPort).match
+//@   props C16
+//@   requires c != nil && c.Certificate != nil && caPool != nil
+//@   ensures result == specPort(fp, p, incoming, c, caPool)
+//@   assigns nothing
+
+//@ func (*FirewallTable).match impl
+//@   props C16
+//@   requires ft != nil && c != nil && c.Certificate != nil && caPool != nil
+//@   ensures result == specTable(ft, p, incoming, c, caPool)
+//@   assigns nothing
+
+// =====================================================================
 // C09 — tunnels are bound to the certified overlay address (responder side)
 // =====================================================================
 //
@@ -1235,9 +1361,11 @@ func specNetFound(t *bart.Table[NetworkType], ip netip.Addr) bool { return false
 //@   assigns nothing
 //@ func github.com/slackhq/nebula/cert.(Certificate).Name
 //@   trusted accessor of an immutable certificate
+//@   ensures result == self.Name()
 //@   assigns nothing
 //@ func github.com/slackhq/nebula/cert.(Certificate).Issuer
 //@   trusted accessor of an immutable certificate
+//@   ensures result == self.Issuer()
 //@   assigns nothing
 
 //@ func (*HandshakeManager).validatePeerCert
